@@ -106,17 +106,19 @@ SecondsBetween(n1, s1, n2, s2) == (n2 - n1) * 86400 + s2 - s1
 Advance(n, s, off) == <<n + (s + off) \div 86400, (s + off) % 86400>>
 
 \* ------------------------------------------------- boundary classification
-\* kind of boundary between this day and the next one (crossed by TickDay)
-DayBoundary ==
-  IF m = 12 /\ d = 31 THEN "year"
-  ELSE IF m = 2 /\ Leap(y) /\ d \in {28, 29} THEN "leapday"
-  ELSE IF d = Dim(y, m) THEN "month" ELSE "day"
-\* kind of boundary crossed by TickSecond from this state
-SecondBoundary ==
-  IF sod = 86399 THEN DayBoundary
-  ELSE IF sod = 43199 THEN "noon"          \* the integer part of the Julian date changes
-  ELSE IF sod % 3600 = 3599 THEN "hour"
-  ELSE IF sod % 60 = 59 THEN "minute" ELSE "second"
+\* kind of boundary between a day and the next one (crossed by TickDay)
+DayBoundaryOf(yy, mm, dd) ==
+  IF mm = 12 /\ dd = 31 THEN "year"
+  ELSE IF mm = 2 /\ Leap(yy) /\ dd \in {28, 29} THEN "leapday"
+  ELSE IF dd = Dim(yy, mm) THEN "month" ELSE "day"
+\* kind of boundary crossed by TickSecond from an instant
+SecondBoundaryOf(yy, mm, dd, ss) ==
+  IF ss = 86399 THEN DayBoundaryOf(yy, mm, dd)
+  ELSE IF ss = 43199 THEN "noon"           \* the integer part of the Julian date changes
+  ELSE IF ss % 3600 = 3599 THEN "hour"
+  ELSE IF ss % 60 = 59 THEN "minute" ELSE "second"
+DayBoundary    == DayBoundaryOf(y, m, d)
+SecondBoundary == SecondBoundaryOf(y, m, d, sod)
 
 \* ---------------------------------------------------------- state machine
 Init == /\ y = FirstYear /\ m = 1 /\ d = 1 /\ sod = 0
@@ -213,9 +215,10 @@ EmitDay == (sod = 0 /\ last \in {"init", "day"}) =>
 \* one line per second tick (seconds configuration): the transition prev -> Instant
 EmitTick == last = "second" =>
    PrintT("TICK " \o ToJson([from |-> prev, to |-> Instant, dn |-> dn, doy |-> doy,
-                             kind |-> IF sod = 0 THEN "carry" ELSE "plain"]))
+                             kind |-> SecondBoundaryOf(prev[1], prev[2], prev[3], prev[4])]))
 
 \* ------------------------------- configuration restrictions (cfg files only)
+Within3  == TLCGet("level") <= 3
 Within8  == TLCGet("level") <= 8
 Within12 == TLCGet("level") <= 12
 
@@ -231,5 +234,8 @@ EndsOf(Y) == {c \in Y \X (1..12) \X {1, 28, 29, 30, 31} :
 DatesQuick    == {c \in EndsOf(YearsQuick) : c[2] \in {1, 2, 3, 12}}
 DatesThorough == EndsOf(YearsThorough)
 SodsQuick     == {0, 57, 3597, 43197, 86337, 86397}
+\* C11: the midnights inside the Earth-orientation table shipped with the simulator
+DatesEop      == {c \in EndsOf(2014..2021) : c[3] # 1}
+LastSecond    == {86399}
 SodsThorough  == {0, 56, 3596, 43196, 46796, 86336, 86396}
 =============================================================================
